@@ -169,6 +169,20 @@ Proof. induction fuel as [|k IH]; intros alpha a H; cbn in H; [discriminate|]. c
   - injection H as <-. exists O. split; [reflexivity|]. cbn. ring.
   - destruct (IH _ _ H) as [c [-> ->]]. exists (S c). split; [reflexivity|]. cbn. ring. Qed.
 
+(* the complete specification of the line search as coded, for ANY loss: the accepted alpha passes the Armijo test, lies in
+   [0,1], equals 2^-c for the returned number c of halvings, and is the FIRST success (alpha = 1 or 2*alpha was rejected) *)
+Lemma C11_backtrack_spec fuel phi fx gamma slope a :
+  C11_backtrack F fuel phi fx gamma slope 1 = Some a ->
+  C11_armijo_ok F phi fx gamma slope a = true /\ 0 <= a /\ a <= 1
+  /\ (a = 1 \/ C11_armijo_ok F phi fx gamma slope (a + a) = false)
+  /\ exists c, C11_backtrack_count F fuel phi fx gamma slope 1 = Some c /\ a = C11_pow (C11_half F) c.
+Proof. intros H.
+  destruct (C11_backtrack_range _ _ _ _ _ _ _ (one_nonneg F) (k_refl F 1) H) as [A0 A1].
+  destruct (C11_backtrack_count_some _ _ _ _ _ _ _ H) as [c [Hc Ec]].
+  split; [exact (C11_backtrack_sound _ _ _ _ _ _ _ H)|]. split; [exact A0|]. split; [exact A1|].
+  split; [exact (C11_backtrack_first _ _ _ _ _ _ _ H)|].
+  exists c. split; [exact Hc|]. rewrite Ec. ring. Qed.
+
 Section Decrease.
 Variables (n : nat) (C : vec -> Prop) (P : vec -> vec) (f : vec -> F) (g : vec -> vec) (mu gamma : F).
 Hypothesis Hmu0 : mu <> 0.
@@ -456,5 +470,16 @@ Proof. intros H.
     replace (- 0) with 0 in H by ring. exact H. }
   assert (Hh : half = 0) by (apply (sum_sqr_zero F half 0); rewrite Z; ring).
   apply (one_neq_zero F). rewrite <- C11_wm_half2, Hh. ring. Qed.
+(* everything about the witness in one statement: C convex, x and z feasible, P the nearest-point map of C for <., M .>,
+   f convex with gradient g, the iteration map of the code (Euclidean gradient step, then P) is stationary at x  -- and z beats x *)
+Lemma C11_wm_summary :
+  C11_convex_set F C11_wm_C /\ C11_obtuse_ip F (C11_ipM F 2 C11_wm_M) C11_wm_C C11_wm_P
+  /\ C11_first_order_convex F 2 (C11_sq_loss F 2 2 C11_wm_A C11_wm_b C11_wm_q) (C11_sq_grad F 2 2 C11_wm_A C11_wm_b C11_wm_q)
+  /\ C11_wm_C C11_wm_x /\ C11_wm_C C11_wm_z
+  /\ veq 2 (C11_dir F C11_wm_P (C11_sq_grad F 2 2 C11_wm_A C11_wm_b C11_wm_q) 1 C11_wm_x) vzero
+  /\ ~ (C11_sq_loss F 2 2 C11_wm_A C11_wm_b C11_wm_q C11_wm_x <= C11_sq_loss F 2 2 C11_wm_A C11_wm_b C11_wm_q C11_wm_z).
+Proof. split; [exact C11_wm_convex|]. split; [exact C11_wm_obtuse|]. split; [apply C11_sq_convex|].
+  split; [unfold C11_wm_C, C11_wm_x; apply k_refl|]. split; [unfold C11_wm_C, C11_wm_z; apply k_refl|].
+  split; [exact C11_wm_stationary|exact C11_wm_not_optimal]. Qed.
 End WrongMetric.
 End C11_Proofs.
